@@ -1062,7 +1062,7 @@ func runCachingMap(c *harness.Case) {
 		}
 		fake.updated, fake.deleted = map[int]int{}, map[int]bool{}
 		fails0, loads0 := fake.failures, fake.loadsOK
-		x.op(name)
+		x.op("%s", name)
 		err := f()
 		c.Count("applies", 1)
 		if fake.loadsOK > loads0 {
